@@ -17,7 +17,8 @@ PV(s, a, b) == Q(((7 * a + 3 * b + 11 * s) % 9) - 4, 2)
 XiOf(g, N) ==
   CASE g = "uni" -> Tup([k \in 1..N + 1 |-> Q(k - 1, N)])
     [] g = "geo" -> LET tot == Pow(R(2), N)[1] - 1 IN Tup([k \in 1..N + 1 |-> Q(Pow(R(2), k - 1)[1] - 1, tot)])
-Space == [L : 2..4, N : 1..(IF Thorough THEN 5 ELSE 3), g : {"uni", "geo"}, refine : 1..(IF Thorough THEN 3 ELSE 2), T : {One, R(2)}, t0 : {Zero, Q(1, 2)}, seed : {Seed}]
+Space == [L : 2..4, N : 1..(IF Thorough THEN 5 ELSE 3), g : {"uni", "geo"}, refine : 1..(IF Thorough THEN 3 ELSE 2), T : {One, R(2)}, t0 : {Zero, Q(1, 2)}, seed : {Seed},
+          hz : {"num", "fT"}]      \* fT: the horizon is a decision variable (FreeTime) whose value at the probe is T: same predictions
 Init == sc \in Space
 Next == UNCHANGED sc
 RECURSIVE MemberCoef(_, _, _, _, _)
